@@ -246,8 +246,11 @@ func genRealScript(r *rand.Rand, prop string) realScript {
 		return strings.Join(parts, "/")
 	}
 	ncy := 2 + r.Intn(4)
-	if r.Intn(4) == 0 {
+	if r.Intn(4) == 0 || (prop == "C02" && r.Intn(2) == 0) {
 		sc.CapBeta = 1 + r.Intn(4)
+		if prop == "C02" && r.Intn(2) == 0 {
+			sc.Mode = "twr"
+		}
 	}
 	for k := 0; k < ncy; k++ {
 		ops := []editOp{}
@@ -267,6 +270,11 @@ func genRealScript(r *rand.Rand, prop string) realScript {
 				side = "alpha" // beta's own content must not outgrow its cap (its scans would then fail)
 			}
 			p := randPath()
+			if sc.CapBeta > 0 && k > 0 && r.Intn(2) == 0 {
+				// directories count against the cap at transition time but not at staging time
+				ops = append(ops, editOp{Side: side, Op: "mkdir", Path: p + "/" + realNames[r.Intn(len(realNames))]})
+				continue
+			}
 			switch r.Intn(12) {
 			case 0, 1, 2, 3, 4:
 				ops = append(ops, editOp{Side: side, Op: "write", Path: p, Arg: content()})
